@@ -484,8 +484,37 @@ func amplifiers() [][]byte {
 	return out
 }
 
+// repeated: datagrams made of many copies of one small valid packet (a per-packet cost that is
+// harmless once becomes a per-datagram cost): up to about 60,000 octets each.
+func repeated(g *gen.G) [][]byte {
+	var out [][]byte
+	var vals []abs.V
+	for i := 0; i < 6; i++ { // feedback with a status count near 2^16 in a few dozen octets
+		n := g.Pick(57340, 60000, 65528, 65534, 65535, 65535)
+		st := make([]int, n)
+		for j := n - g.Int(1, 3); j < n; j++ {
+			st[j] = g.Pick(1, 2)
+		}
+		vals = append(vals, g.TWCCFrom(st, 1))
+	}
+	for _, k := range gen.Kinds {
+		vals = append(vals, g.Of(k))
+	}
+	for _, v := range vals {
+		b := encodeWith(v)
+		if len(b) == 0 || len(b) > 200 {
+			continue
+		}
+		out = append(out, rep(b, 60000/len(b)))
+	}
+	return out
+}
+
 func init() {
 	drivers["amplify"] = func(s *exec.State, g *gen.G, n int) {
+		for _, b := range repeated(g) {
+			scriptDgram(s, b)
+		}
 		entry := map[byte]string{200: "SR", 201: "RR", 202: "SDES", 203: "BYE", 207: "XR"}
 		for _, b := range amplifiers() {
 			e, ok := entry[b[1]]
@@ -508,6 +537,63 @@ func init() {
 				}
 			}
 			scriptOwn(s, b, e)
+		}
+	}
+}
+
+func init() {
+	// errpaths: a call that fails half-way, then the same successful call before and after it (C18: results do
+	// not depend on what was called before; C03: the bytes after a failure are still right)
+	drivers["errpaths"] = func(s *exec.State, g *gen.G, n int) {
+		bad := func() abs.V {
+			switch g.R.Intn(4) {
+			case 0:
+				return abs.V{"k": "BYE", "srcs": g.U32s(2), "reason": g.Bytes(300)}
+			case 1:
+				return abs.V{"k": "SDES", "chunks": abs.L{abs.V{"src": g.U32(), "items": abs.L{abs.V{"t": 0, "text": abs.L{}}}}}}
+			case 2:
+				v := g.SR()
+				v["reports"] = g.RBs(40)
+				return v
+			}
+			v := g.APP()
+			v["name"] = g.Bytes(3)
+			return v
+		}
+		for i := 0; i < n; i++ {
+			k := g.Pick(1, 2, 3)
+			good := make(abs.L, k)
+			for j := range good {
+				good[j] = g.Any()
+			}
+			m := g.Pick(1, 2, 3, 4)
+			fl := make(abs.L, m)
+			for j := range fl {
+				fl[j] = g.Any()
+			}
+			fl[g.R.Intn(m)] = bad() // the failing member in a random position (after 0..3 good ones)
+			s.Reset()
+			s.Build(6, abs.V{"k": "LIST", "pkts": good})
+			s.Build(5, abs.V{"k": "LIST", "pkts": fl})
+			s.Marshal(6)
+			s.Marshal(5)
+			s.Marshal(6)
+			s.Marshal(6)
+			if s.Buf[6] != nil {
+				s.Datagram(6, 7)
+			}
+			// single packets: a failing Marshal between two good ones; a failing decode between two good ones
+			s.Build(1, good[0])
+			s.Build(2, bad())
+			s.Marshal(1)
+			s.Marshal(2)
+			s.Marshal(1)
+			if s.Buf[1] != nil {
+				s.Datagram(1, 3)
+				s.SetBuf(4, mutate(g, s.Buf[1][:len(s.Buf[1])/2]))
+				s.Datagram(4, 8)
+				s.Datagram(1, 3)
+			}
 		}
 	}
 }
